@@ -648,6 +648,11 @@ class FunctionRun:
                                 ns = dict(s2)
                                 self.refine(ns, ref, nv)
                                 ns = self.tag_refined(ns, ref, nv)
+                                if lo == hi and hasattr(self.tr, "on_switch_case"):
+                                    # the tracker's view of `scrutinee == case constant` (same hook as a two-way branch on it)
+                                    ns2 = self.tr.on_switch_case(self, term, lo, ns)
+                                    if ns2 is not None:
+                                        ns = ns2
                                 outs.append((i, sc["b"], ns))
                             else:
                                 nv = v
